@@ -207,13 +207,29 @@ func (p *Program) renames() *renameInfo {
 						cands = append(cands, e)
 					}
 				}
+				typeOnly := func(sig string) string {
+					if i := strings.Index(sig, ":"); i >= 0 && strings.Contains(m, "|#") {
+						return sig[i+1:]
+					}
+					return sig
+				}
+				byTypeOnly := false
+				if len(cands) == 0 && strings.Contains(m, "|#") {
+					// a renamed field that also moved inside its struct: the type alone, if that is unambiguous
+					for _, e := range gr.extra {
+						if strings.Contains(e, "|#") && typeOnly(curSig[e]) == typeOnly(ref[m]) {
+							cands = append(cands, e)
+						}
+					}
+					byTypeOnly = true
+				}
 				if len(cands) == 0 {
 					continue
 				}
 				// the candidate must match only this missing name; otherwise the bodies decide
 				n := 0
 				for _, m2 := range gr.missing {
-					if ref[m2] == curSig[cands[0]] {
+					if ref[m2] == curSig[cands[0]] || (byTypeOnly && strings.Contains(m2, "|#") && typeOnly(ref[m2]) == typeOnly(curSig[cands[0]])) {
 						n++
 					}
 				}
@@ -315,6 +331,75 @@ func (p *Program) renames() *renameInfo {
 			ri.conv[fn] = -1
 		}
 		ri.notes = append(ri.notes, cands[0]+" is treated as "+m+" (method/function conversion)")
+	}
+	// conversion with another parameter list ( (*T).m(args) ~ m(t.field, args) ,  f(x) ~ (X).m() ): the bodies decide. Only for
+	// functions of at least some size (the fingerprint of a two-line function fits too many), one candidate, one anchor.
+	{
+		var missing2, extra2 []string
+		for k := range ref {
+			if !has(k) && ri.byKey[k] == nil && !strings.Contains(k, "|#") {
+				missing2 = append(missing2, k)
+			}
+		}
+		for k, fn := range cur {
+			if _, ok := ref[k]; !ok && ri.canon[fn] == "" {
+				extra2 = append(extra2, k)
+			}
+		}
+		sort.Strings(missing2)
+		sort.Strings(extra2)
+		fpOf := func(m string) []string {
+			if p.fps == nil {
+				p.fps = map[string][]string{}
+				json.Unmarshal(anchorsFPJSON, &p.fps)
+			}
+			return p.fps[m]
+		}
+		for _, m := range missing2 {
+			mp := strings.SplitN(m, "|", 3)
+			want := fpOf(m)
+			if len(want) < 3 {
+				continue
+			}
+			var cands []string
+			for _, e := range extra2 {
+				ep := strings.SplitN(e, "|", 3)
+				if ep[0] != mp[0] {
+					continue
+				}
+				sim := jaccard(want, p.Fingerprint(cur[e]))
+				if (ep[2] == mp[2] && sim >= 0.5) || sim >= 0.8 {
+					cands = append(cands, e)
+				}
+			}
+			if len(cands) != 1 {
+				continue
+			}
+			// the candidate must not fit another missing anchor as well
+			n := 0
+			for _, m2 := range missing2 {
+				if strings.SplitN(m2, "|", 3)[0] != mp[0] {
+					continue
+				}
+				if w2 := fpOf(m2); len(w2) >= 3 {
+					sim := jaccard(w2, p.Fingerprint(cur[cands[0]]))
+					if (strings.SplitN(cands[0], "|", 3)[2] == strings.SplitN(m2, "|", 3)[2] && sim >= 0.5) || sim >= 0.8 {
+						n++
+					}
+				}
+			}
+			if n != 1 {
+				continue
+			}
+			fn := cur[cands[0]]
+			if ri.canon[fn] != "" {
+				continue
+			}
+			ri.canon[fn] = mp[2]
+			ri.byKey[m] = fn
+			ri.qual[fn] = qualOfKey(m)
+			ri.notes = append(ri.notes, cands[0]+" is treated as "+m+" (same body, other parameter list)")
+		}
 	}
 	for fn, k := range keyOf {
 		if _, isRef := ref[k]; isRef && qualOfKey(k) != fn.String() {
